@@ -23,7 +23,7 @@ func init() {
 	core.Register(&core.Property{
 		ID:    "C09",
 		Level: "model_checking",
-		Rule: "universe = all sequences of length 2 and 3 (thorough: also length 4 over the 8 most interacting changes) over a catalogue of 15 interacting changes (a change that uses the metavariable names of the others as ordinary names, B matches only A's output, duplication, consumption of what a later change needs, no-ops, a change failing with an unbound '+' metavariable, a change whose result alone is unparseable, statement/declaration/import changes; repetitions allowed) x 9 files x packaging {one patch file, repeated -p (same path for a repeated change), -P list, stdin, -p mixed with -P, library API}. " +
+		Rule: "universe = all sequences of length 2 and 3 (thorough: also length 4 over the 8 most interacting changes) over a catalogue of 15 interacting changes (a change that uses the metavariable names of the others as ordinary names, B matches only A's output, duplication, consumption of what a later change needs, no-ops, a change failing with an unbound '+' metavariable, a change whose result alone is unparseable, statement/declaration/import changes; repetitions allowed) x 9 files x packaging {one patch file, repeated -p (same path for a repeated change), -P list, -P list with blank lines and without final newline, stdin, -p mixed with -P, library API}. " +
 			"Differential oracle without model: the combined run's result is canonically identical to the chain of single-change runs, each on the bytes the previous one produced; a failing step makes the combined run exit non-zero and leave the file byte-identical. non-trivial = at least two changes of the history apply in the chain",
 		Assumptions: []string{"histories in which a chain step fails only because its intermediate text does not parse, while the combined run reaches a parseable result, are enumerated but excluded from the verdict"},
 		Bounds:      func(tier string) map[string]any { return map[string]any{"changes": len(c09Order), "max_len": c09MaxLen(tier)} },
@@ -80,7 +80,7 @@ var c09Files = [][2]string{
 }
 
 func c09Gen(tier string, emit func(any)) {
-	packagings := []string{"one", "multi-p", "P-list", "stdin", "mixed", "api"}
+	packagings := []string{"one", "multi-p", "P-list", "stdin", "mixed", "api", "P-list-odd"}
 	for _, s := range seqs(c09Order, c09MaxLen(tier)) {
 		if len(s) < 2 {
 			continue
@@ -99,7 +99,7 @@ func c09Gen(tier string, emit func(any)) {
 		}
 		for _, f := range c09Files {
 			for _, p := range packagings {
-				if len(s) >= 3 && (p == "stdin" || p == "mixed") && f[0] != "a1" && f[0] != "nested" {
+				if len(s) >= 3 && (p == "stdin" || p == "mixed" || p == "P-list-odd") && f[0] != "a1" && f[0] != "nested" {
 					continue // length 3: all packagings on two files, the main packagings on all files
 				}
 				emit(&C09Case{Seq: s, FileID: f[0], File: f[1], Packaging: p})
@@ -234,6 +234,12 @@ func c09Run(env *core.Env, ci any) core.Outcome {
 			}
 		case "P-list":
 			if err := writeFile(sb.path("list.txt"), list(c.Seq)); err != nil {
+				panic(err)
+			}
+			args = []string{"-P", sb.path("list.txt")}
+		case "P-list-odd":
+			// the same list in a legal but unusual spelling: blank lines, no newline after the last entry
+			if err := writeFile(sb.path("list.txt"), "\n\n"+strings.TrimSuffix(strings.ReplaceAll(list(c.Seq), "\n", "\n\n"), "\n\n")); err != nil {
 				panic(err)
 			}
 			args = []string{"-P", sb.path("list.txt")}
